@@ -913,7 +913,12 @@ def index_case(ctx, rng):
             if hasattr(fs, "raw_default"):
                 fs.col_default = fs.raw_default
             else:
-                fs.col_default = fs.field.from_column_value(ct.default_value())
+                # the column default as the field type itself decodes it; a field that cannot decode its own default
+                # is a defect of the code under test, not of the harness
+                ok, fs.col_default = ctx.guard("idx.schema", {"layer": "index", "field": fs.kind, "step": "from_column_value(default)"},
+                                               fs.field.from_column_value, ct.default_value())
+                if not ok:
+                    return ("idx", "schema-failed", fs.kind), False, {"layer": "index", "field": fs.kind}
     storage_kind = rng.choice(["ram", "file", "mmap"])
     compound = rng.random() < 0.6
     frontend = rng.choice(["writer", "writer", "writer", "buffered"]) if not wide else "writer"
